@@ -25,9 +25,9 @@ def static_part(ctx, T=T, stem="Shapes", prefix="shape"):
     ctx.extra["generated_build_ok"] = r.returncode == 0
     missing = [t["site"] for t in table if not t["found"]]
     if r.returncode == 0:
-        names = [f"PsVerif.Gen.{t['theorem']}" for t in table if t["found"] and not t.get("theorems")] + \
+        names = [f"PsVerif.Gen.{t['theorem']}" for t in table if t["found"] and "theorems" not in t] + \
                 [f"PsVerif.Gen.{'loop' if t['site'] == 'Polygon' else 'indices'}_{t['site']}" for t in table
-                 if t["found"] and t["site"] != "DfBox" and not t.get("theorems")] + \
+                 if t["found"] and t["site"] != "DfBox" and "theorems" not in t] + \
                 [f"PsVerif.Gen.{n}" for t in table if t["found"] for n in t.get("theorems", [])]
         aud = C.LEAN / "Audit" / f"Generated{stem}.lean"
         text_a = f"import PsVerif.Generated.{stem}\n" + "\n".join(f"#print axioms {n}" for n in names) + "\n"
@@ -36,7 +36,7 @@ def static_part(ctx, T=T, stem="Shapes", prefix="shape"):
         ra_rc, ra_out = C.cached_lean_audit(f"Audit/Generated{stem}.lean".split("/", 1)[1])
         flat = (ra_out).replace("\n ", " ").replace("\n", " ")
         axioms = {}
-        for m in re.finditer(r"'PsVerif\.Gen\.((?:shape|indices|loop|box|normcalc|mask)_\w+)' (?:depends on axioms: \[([^\]]*)\]|does not depend on any axioms)", flat):
+        for m in re.finditer(r"'PsVerif\.Gen\.((?:shape|indices|loop|box|normcalc|mask|pipe|selection)_\w+)' (?:depends on axioms: \[([^\]]*)\]|does not depend on any axioms)", flat):
             axioms[m.group(1)] = [a.strip() for a in (m.group(2) or "").split(",") if a.strip()]
         nonstd = {k: [a for a in v if a not in C.ALLOWED_AXIOMS] for k, v in axioms.items()}
         nonstd = {k: v for k, v in nonstd.items() if v}
@@ -47,6 +47,10 @@ def static_part(ctx, T=T, stem="Shapes", prefix="shape"):
         return missing, table
     text = out.read_text().splitlines()
     starts = [(i + 1, m.group(1)) for i, l in enumerate(text) for m in [re.match(r"theorem (?:shape|box|normcalc|mask)_(\w+?)(?:_edge)? ", l)] if m]
+    by_theorem = {n: t["site"] for t in table for n in t.get("theorems", [])}
+    if by_theorem:
+        # sites that list their theorems by name (ranking translator): blame by membership
+        starts = [(i + 1, by_theorem[m.group(1)]) for i, l in enumerate(text) for m in [re.match(r"theorem (\w+)", l)] if m and m.group(1) in by_theorem]
     bad = []
     for m in re.finditer(r"(?:error: \S*" + stem + r"\.lean:(\d+):\d+)|(?:" + stem + r"\.lean:(\d+):\d+: error)", r.stdout + r.stderr):
         ln = int(m.group(1) or m.group(2))
@@ -78,3 +82,22 @@ def static_part(ctx, T=T, stem="Shapes", prefix="shape"):
     if not bad:
         raise C.HarnessError("generated shape obligations fail to build but no theorem could be blamed:\n" + (r.stdout + r.stderr)[-1500:])
     return bad, table
+
+
+def run_with_translation(ctx, T, stem, label, body, broken_hint):
+    """regenerate + re-prove (`static_part`), run the differential `body`, and turn a generated theorem that no longer checks into
+    `no-failing-input-found` unless the differential produced a concrete violation (known findings do not count)"""
+    offenders, table = static_part(ctx, T=T, stem=stem)
+    n_before = len(ctx.violations)
+    body()
+    if offenders:
+        why = {t["site"]: t.get("why") for t in table if not t["found"]}
+        names = ", ".join(str(o) + (f" (untranslatable: {why[o]})" if why.get(o) else "") for o in offenders)
+        known = {k.get("signature") for k in C.load_known_findings() if k.get("status") == "known"}
+        if any(v.kind == "concrete" and (v.data or {}).get("signature") not in known for v in ctx.violations[n_before:]):
+            ctx.notes.append(f"generated {label} theorems that no longer check: " + names)
+        else:
+            ctx.violation("no-failing-input-found",
+                          f"generated {label} theorem(s) no longer check: {names} – the differential run on the real code found no wrong answer",
+                          {"signature": f"{stem.lower()}-obligation:" + str(offenders[0]), "offenders": offenders, "why": why},
+                          broken=f"generated theorem(s) of site(s) {', '.join(map(str, offenders))} in PsVerif/Generated/{stem}.lean ({broken_hint})")
